@@ -457,3 +457,165 @@ Proof.
     destruct (sc2_ok a Ha) as (Fa & Fa' & _). rewrite !ltb_equiv, P2B_infinity, !Bltb_fin_inf by assumption. reflexivity.
 Qed.
 End Laws.
+
+(* ========== Part 4: the whole algorithm, for any sample type whose laws hold under the tests ========== *)
+From AG Require Import Signal.Greedy_proofs.
+Local Open Scope nat_scope.
+
+Section Guarded.
+Variable F : Type.
+Variables zero szero inf : F.
+Variables add sub mul div fmin : F -> F -> F.
+Variables neg nonneg : F -> bool.
+Variable ltb : F -> F -> bool.
+Variable okv : F -> bool.
+Variables ok_sub ok_mul ok_div : F -> F -> bool.
+Variable ok_sq : F -> bool.
+Variables ok_add2 ok_lt2 : F -> F -> bool.
+Variables sc sc2 : F -> F.
+Hypothesis sc_zero : sc zero = zero.
+Hypothesis sc_sub : forall a b, ok_sub a b = true -> sub (sc a) (sc b) = sc (sub a b).
+Hypothesis sc_mul : forall v r, ok_mul v r = true -> mul (sc v) r = sc (mul v r).
+Hypothesis sc_div : forall s r, ok_div s r = true -> div (sc s) r = sc (div s r).
+Hypothesis sc_min : forall a b, okv a = true -> okv b = true -> fmin (sc a) (sc b) = sc (fmin a b).
+Hypothesis sc_nonneg : forall x, okv x = true -> nonneg (sc x) = nonneg x.
+Hypothesis sc_sq : forall x, ok_sq x = true -> mul (sc x) (sc x) = sc2 (mul x x).
+Hypothesis sc2_add : forall a b, ok_add2 a b = true -> add (sc2 a) (sc2 b) = sc2 (add a b).
+Hypothesis sc2_szero : sc2 szero = szero.
+Hypothesis sc2_ltb : forall a b, ok_lt2 a b = true -> ltb (sc2 a) (sc2 b) = ltb a b.
+Hypothesis sc2_inf : sc2 inf = inf.
+
+Notation msc := (map sc).
+Notation slice := (slice F).
+Notation last_nonneg := (last_nonneg F nonneg).
+Notation zip_div := (zip_div F div).
+Notation reduce_min := (reduce_min F fmin).
+Notation sub_scaled := (sub_scaled F sub mul).
+Notation advance := (advance F zero).
+Notation finish := (finish F zero).
+Notation fire := (fire F sub mul div fmin).
+Notation greedy_loop := (greedy_loop F zero sub mul div fmin nonneg).
+Notation sumsq := (sumsq F szero add mul).
+Notation nn_greedy := (nn_greedy F zero szero add sub mul div fmin neg nonneg).
+Notation sc_pair := (sc_pair F sc).
+Notation sc_out := (Greedy.sc_out F sc sc2).
+Notation zip_div_ok := (zip_div_ok F ok_div).
+Notation fold_min_ok := (fold_min_ok F fmin okv).
+Notation sub_scaled_ok := (sub_scaled_ok F mul ok_sub ok_mul).
+Notation fire_ok := (fire_ok F mul div fmin okv ok_sub ok_mul ok_div).
+Notation loop_ok := (loop_ok F zero sub mul div fmin nonneg okv ok_sub ok_mul ok_div).
+Notation sumsq_ok := (sumsq_ok F add mul ok_sq ok_add2).
+Notation nn_ok := (nn_ok F zero szero add sub mul div fmin neg nonneg okv ok_sub ok_mul ok_div ok_sq ok_add2).
+
+Lemma last_nonneg_g w : forallb okv w = true -> last_nonneg (msc w) = last_nonneg w.
+Proof.
+  induction w as [|x t IH]; [reflexivity|]. cbn [forallb map Greedy.last_nonneg]. rewrite andb_true_iff.
+  intros [Hx Ht]. rewrite (IH Ht), (sc_nonneg x Hx). reflexivity.
+Qed.
+Lemma zip_div_g : forall w rw, zip_div_ok w rw = true -> zip_div (msc w) rw = msc (zip_div w rw).
+Proof.
+  induction w as [|s t IH]; intros rw; [reflexivity|]. destruct rw as [|r rt]; [reflexivity|].
+  cbn [GreedyScale.zip_div_ok map Greedy.zip_div]. rewrite andb_true_iff. intros [H1 H2].
+  rewrite (sc_div _ _ H1), (IH _ H2). reflexivity.
+Qed.
+Lemma fold_min_g : forall qs q, fold_min_ok qs q = true -> fold_left fmin (msc qs) (sc q) = sc (fold_left fmin qs q).
+Proof.
+  induction qs as [|x t IH]; intros q; [reflexivity|]. cbn [GreedyScale.fold_min_ok map fold_left].
+  rewrite !andb_true_iff. intros [[H1 H2] H3]. rewrite (sc_min _ _ H1 H2). apply IH, H3.
+Qed.
+Lemma sub_scaled_g : forall rest resp v, sub_scaled_ok rest resp v = true ->
+  sub_scaled (msc rest) resp (sc v) = msc (sub_scaled rest resp v).
+Proof.
+  induction rest as [|s t IH]; intros resp v; [reflexivity|]. destruct resp as [|r rt]; [reflexivity|].
+  cbn [GreedyScale.sub_scaled_ok map Greedy.sub_scaled]. rewrite !andb_true_iff. intros [[H1 H2] H3].
+  rewrite (sc_mul _ _ H1), (sc_sub _ _ H2), (IH _ _ H3). reflexivity.
+Qed.
+Lemma fire_g response rwin win rest : fire_ok response rwin win rest = true ->
+  fire response rwin (msc win) (msc rest) = res_map (fun p => (sc (fst p), msc (snd p))) (fire response rwin win rest).
+Proof.
+  unfold GreedyScale.fire_ok, Greedy.fire. rewrite andb_true_iff. intros [H1 H2]. rewrite (zip_div_g _ _ H1).
+  destruct (zip_div win rwin) as [|q qs]; [reflexivity|]. rewrite andb_true_iff in H2. destruct H2 as [H2 H3].
+  cbn [map Greedy.reduce_min unwrap bind res_map fst snd]. rewrite (fold_min_g _ _ H2), (sub_scaled_g _ _ _ H3). reflexivity.
+Qed.
+
+Lemma loop_g response rwin off la : forall fuel rest ai ar,
+  loop_ok response rwin off la fuel rest ai ar = true ->
+  greedy_loop response rwin off la fuel (msc rest) (msc ai) (msc ar) =
+  res_map sc_pair (greedy_loop response rwin off la fuel rest ai ar).
+Proof.
+  induction fuel as [|f IH]; intros rest ai ar; [reflexivity|]. cbn [GreedyScale.loop_ok Greedy.greedy_loop].
+  rewrite slice_map. destruct (slice rest off la) as [win|]; cbn [option_map].
+  - rewrite andb_true_iff. intros [Hw H]. rewrite (last_nonneg_g _ Hw). destruct (last_nonneg win) as [lp|].
+    + rewrite (advance_map F zero sc sc_zero). destruct (Greedy.advance F zero (S lp) rest ai ar) as [[r' ai'] ar']. apply IH, H.
+    + rewrite andb_true_iff in H. destruct H as [Hf H]. rewrite (fire_g _ _ _ _ Hf).
+      destruct (fire response rwin win rest) as [[val rest']| |]; cbn [res_map bind fst snd]; try reflexivity.
+      destruct rest' as [|x t]; [reflexivity|]. apply (IH t (val :: ai) (x :: ar)), H.
+  - intros _. cbn [res_map]. rewrite (finish_map F zero sc sc_zero). reflexivity.
+Qed.
+
+Lemma sumsq_g : forall l acc, sumsq_ok l acc = true ->
+  fold_left (fun a x => add a (mul x x)) (msc l) (sc2 acc) = sc2 (fold_left (fun a x => add a (mul x x)) l acc).
+Proof.
+  induction l as [|x t IH]; intros acc; [reflexivity|]. cbn [GreedyScale.sumsq_ok map fold_left].
+  rewrite !andb_true_iff. intros [[H1 H2] H3]. rewrite (sc_sq _ H1), (sc2_add _ _ H2). apply IH, H3.
+Qed.
+
+(* every control decision is unchanged; outputs are scaled by c, the residual by c^2 *)
+Theorem nn_greedy_scale_g signal response off la :
+  nn_ok signal response off la = true ->
+  nn_greedy (msc signal) response off la = res_map sc_out (nn_greedy signal response off la).
+Proof.
+  unfold GreedyScale.nn_ok, Greedy.nn_greedy, Greedy.nn_with.
+  destruct (slice response off la) as [rwin|]; cbn [unwrap bind res_map]; [|reflexivity].
+  unfold assert_. destruct (forallb neg rwin); [|reflexivity].
+  rewrite andb_true_iff. intros [Hl Hs].
+  rewrite map_length. change (@nil F) with (msc []) at 1 2. rewrite (loop_g _ _ _ _ _ _ _ _ Hl).
+  destruct (greedy_loop response rwin off la (S (length signal)) signal [] []) as [[residual input]| |];
+    cbn [res_map bind]; try reflexivity.
+  unfold Greedy_proofs.sc_pair, Greedy.sc_out. cbn [fst snd]. unfold Greedy.sumsq.
+  rewrite <- sc2_szero at 1. rewrite (sumsq_g _ _ Hs). reflexivity.
+Qed.
+
+Section LsG.
+Variables signal response : list F.
+Notation ls_step_ok := (GreedyScale.ls_step_ok F zero szero add sub mul div fmin neg nonneg okv ok_sub ok_mul ok_div ok_sq ok_add2 ok_lt2 signal response).
+Notation ls_inner_ok := (GreedyScale.ls_inner_ok F zero szero add sub mul div fmin neg nonneg ltb okv ok_sub ok_mul ok_div ok_sq ok_add2 ok_lt2 signal response).
+Notation ls_outer_ok := (GreedyScale.ls_outer_ok F zero szero add sub mul div fmin neg nonneg ltb okv ok_sub ok_mul ok_div ok_sq ok_add2 ok_lt2 signal response).
+Notation ls_ok := (GreedyScale.ls_ok F zero szero inf add sub mul div fmin neg nonneg ltb okv ok_sub ok_mul ok_div ok_sq ok_add2 ok_lt2 signal response).
+Notation ls_step := (Greedy.ls_step F ltb nn_greedy).
+Notation ls_inner := (Greedy.ls_inner F ltb nn_greedy).
+Notation ls_outer := (Greedy.ls_outer F ltb nn_greedy).
+Notation ls_deconv := (Greedy.ls_deconv F inf ltb nn_greedy).
+
+Lemma ls_step_g best off la : ls_step_ok best off la = true ->
+  ls_step (msc signal) response (sc_out best) off la = res_map sc_out (ls_step signal response best off la).
+Proof.
+  unfold GreedyScale.ls_step_ok, Greedy.ls_step. rewrite andb_true_iff. intros [Hn Hl].
+  rewrite (nn_greedy_scale_g _ _ _ _ Hn).
+  destruct (nn_greedy signal response off la) as [[r inp]| |]; cbn [res_map bind]; try reflexivity.
+  unfold Greedy.sc_out at 1 2. cbn [fst snd]. rewrite (sc2_ltb _ _ Hl). destruct (ltb r (fst best)); reflexivity.
+Qed.
+Lemma ls_inner_g off : forall las best, ls_inner_ok best off las = true ->
+  ls_inner (msc signal) response (sc_out best) off las = res_map sc_out (ls_inner signal response best off las).
+Proof.
+  induction las as [|la t IH]; intros best; [reflexivity|]. cbn [GreedyScale.ls_inner_ok Greedy.ls_inner].
+  rewrite andb_true_iff. intros [H1 H2]. rewrite (ls_step_g _ _ _ H1).
+  destruct (ls_step signal response best off la) as [b| |]; cbn [res_map bind]; try reflexivity. apply IH, H2.
+Qed.
+Lemma ls_outer_g las : forall offs best, ls_outer_ok best offs las = true ->
+  ls_outer (msc signal) response (sc_out best) offs las = res_map sc_out (ls_outer signal response best offs las).
+Proof.
+  induction offs as [|off t IH]; intros best; [reflexivity|]. cbn [GreedyScale.ls_outer_ok Greedy.ls_outer].
+  rewrite andb_true_iff. intros [H1 H2]. rewrite (ls_inner_g _ _ _ H1).
+  destruct (ls_inner signal response best off las) as [b| |]; cbn [res_map bind]; try reflexivity. apply IH, H2.
+Qed.
+Theorem ls_deconv_scale_g offs las : ls_ok offs las = true ->
+  ls_deconv (msc signal) response offs las = res_map msc (ls_deconv signal response offs las).
+Proof.
+  unfold GreedyScale.ls_ok, Greedy.ls_deconv. intros H.
+  replace (inf, @nil F) with (sc_out (inf, [])) at 1 by (unfold Greedy.sc_out; cbn [fst snd map]; rewrite sc2_inf; reflexivity).
+  rewrite (ls_outer_g _ _ _ H).
+  destruct (ls_outer signal response (inf, []) offs las) as [b| |]; reflexivity.
+Qed.
+End LsG.
+End Guarded.
